@@ -273,10 +273,10 @@ class DavSession:
         """Set (value: str) or remove (value None) one collection property."""
         return self.propupdate(c, [(p, value)])
 
-    def propupdate(self, c, ops):
+    def propupdate(self, c, ops, cdata=False):
         """One PROPPATCH with the instructions ops = [(property, value or None = remove)] in this order."""
         path = self.slots[c] + "/"
-        body = gamma.proppatch_body(ops)
+        body = gamma.proppatch_body(ops, cdata=cdata)
         resp = self.world.request("PROPPATCH", path, [("Content-Type", "text/xml")], body)
         # per-property status decides whether the server reported success
         status = {}
@@ -290,8 +290,12 @@ class DavSession:
                             status[p] = t[0]
             except ValueError:
                 pass
+        # free: the value is outside the grammar C15 speaks about (a colour without '#'): what it
+        # reads back as is not judged, everything else about the request is
         ins = [{"p": NEUTRAL.get(p, p), "xp": p, "set": v is not None, "v": self.V(v) if v is not None else 0,
-                "pst": status.get(p) or 0} for (p, v) in ops]
+                "pst": status.get(p) or 0,
+                "free": bool(v is not None and NEUTRAL.get(p, p) == "color" and not v.startswith("#"))}
+               for (p, v) in ops]
         ev = {"op": "Proppatch", "c": c, "ins": ins}
         return self._record(ev, resp, {"m": "PROPPATCH", "path": path, "ops": [[p, v] for (p, v) in ops]})
 
